@@ -18,7 +18,8 @@ RULE = ('one case = (program, assignment of 1-4 generated plug classes to phases
         'test_start, fault map over the plug classes: constructor raises / tearDown raises / '
         'tearDown hangs killably / tearDown hangs unkillably with plug_teardown_timeout_s = '
         '50 ms / tearDown yields 50 times (time-out 400 ms when combined with a hang); the same '
-        'plug class may be requested under two argument names; settings); for directed programs every single-plug fault and every pair of '
+        'plug class may be requested under two argument names, two classes may share one '
+        'qualified name, with_args() values may collide with plug argument names; settings); for directed programs every single-plug fault and every pair of '
         'faults is enumerated; seeded random programs x assignments x fault maps extend it; '
         'distinct = distinct case; non-trivial = at least one plug was constructed or a '
         'constructor fault fired')
@@ -67,6 +68,17 @@ BASES = [
     ([_p('a', plugs=[0, '0b', 1]), _p('b', plugs=['1b', 1])],
      {'start': _p('start', plugs=[0, '0b'])}),
     ([_p('a', plugs=[1, '1x'])], {'start': _p('start', plugs=['0b', 0, 1])}),
+    # two distinct plug classes carrying the same module and class name
+    ([_p('a', plugs=[0]), _p('b', plugs=[1]), _p('c', plugs=[0, 1, 2])],
+     {'plug_same_name': [[0, 1]]}),
+    ([_p('a', plugs=[1, 2])], {'start': _p('start', plugs=[0]),
+                               'plug_same_name': [[0, 1, 2]]}),
+    # with_args() values whose names collide with plug argument names: the
+    # plug must still be what the phase receives under that name
+    ([_p('a', plugs=[0], with_args={'plug0': 'not-a-plug'}),
+      _p('b', plugs=[0, 1], with_args={'plug1': 7})], {}),
+    ([_p('a', plugs=[1], with_args={'plug1': None})],
+     {'start': _p('start', plugs=[0], with_args={'plug0': 'x'})}),
 ]
 
 
@@ -102,6 +114,10 @@ def sampled(tier, rng):
                                           rng.randint(1, min(2, nplugs))))
         if rng.random() < .2:     # same class under a second argument name
           n[2]['plugs'].append('%db' % n[2]['plugs'][0])
+        if rng.random() < .15:    # a with_args() value under a plug's name
+          n[2]['with_args'] = {'plug%s' % n[2]['plugs'][0]: 'not-a-plug'}
+    if nplugs >= 2 and rng.random() < .2:
+      cfg['plug_same_name'] = [[0, 1]]
     faults = {}
     for i in range(nplugs):
       r = rng.random()
@@ -222,7 +238,8 @@ def run_case(case):
       bad('plug-teardown-after-output-callback')
   # 5./6. outcome
   model = pm.run_model(prog, {k: v for k, v in cfg.items()
-                              if k not in ('plugs', 'plug_td_timeout')})
+                              if k not in ('plugs', 'plug_td_timeout',
+                                           'plug_same_name')})
   phase_starts = [e for e in ev if e[2] == 'start']
   if fired_ctor:
     first_fail = min(by_idx[idx][0][0] for idx in fired_ctor)
